@@ -660,6 +660,13 @@ impl<'a> Exec<'a> {
                 }
             }
         }
+        // (A resource that owns a descriptor closes it wherever a10 drops the
+        // operation's resources, e.g. on an error result inside this poll:
+        // those closes belong to no operation.)
+        let owned: Vec<i32> = self.ops.iter().filter_map(|o| o.st.owned_fd).collect();
+        let n_before = new_sqes.len();
+        new_sqes.retain(|q| !(q.opcode == abi::OP_CLOSE && q.user_data < 4 && owned.contains(&q.fd)));
+        let published = published - (n_before - new_sqes.len()) as u32;
         if published > 1 && self.oracles.c04 {
             self.violation("C04:multiple-sqes-per-poll", format!("one poll published {published} submissions"));
             return;
@@ -913,6 +920,11 @@ impl<'a> Exec<'a> {
                 }
             }
         }
+        // (A resource that owns a descriptor closes it when a10 drops the
+        // resources: not part of the cancellation protocol.)
+        if let Some(owned) = self.ops[i].st.owned_fd {
+            new_sqes.retain(|q| !(q.opcode == abi::OP_CLOSE && q.fd == owned));
+        }
         if self.oracles.c06 {
             let ud = self.ops[i].user_data;
             if running && !full {
@@ -1150,7 +1162,28 @@ impl<'a> Exec<'a> {
         if self.oracles.c04 {
             let entered = sim::events_since(events_at_poll.min(sim::events_len())).iter().any(|e| matches!(e, SimEvent::Enter { ret, .. } if *ret >= 0));
             let sqpoll = sim::sim().ring(self.world.ring_fd).is_some_and(|r| r.is_sqpoll());
-            let left = sq_tail.wrapping_sub(sim::sim().ring(self.world.ring_fd).map_or(sq_tail, |r| r.k_sq_head));
+            let left = {
+                // (Not counting closes of descriptors owned by an operation's
+                // resources: they are queued while Ring::poll drops those
+                // resources, after it entered the kernel.)
+                let owned: Vec<i32> = self.ops.iter().filter_map(|o| o.st.owned_fd).collect();
+                let mut s = sim::sim();
+                match s.ring(self.world.ring_fd) {
+                    Some(r) => {
+                        let mut n = 0;
+                        let mut p = r.k_sq_head;
+                        while p != sq_tail {
+                            let q = r.read_sqe_slot(p);
+                            if !(q.opcode == abi::OP_CLOSE && q.user_data < 4 && owned.contains(&q.fd)) {
+                                n += 1;
+                            }
+                            p = p.wrapping_add(1);
+                        }
+                        n
+                    }
+                    None => 0,
+                }
+            };
             if entered && !sqpoll && left > 0 {
                 self.violation("C04:left-unsubmitted", format!("Ring::poll entered the kernel but {left} accepted submissions are still in the queue afterwards (the kernel stopped at a submission it refused; nothing submits the rest until some later call)"));
                 if self.stop {
@@ -1312,6 +1345,7 @@ impl<'a> Exec<'a> {
         }
         // Tear down a10 objects: descriptors, ring, queue handle.
         let fd = self.fd;
+        let _ = catch(ops::drop_owned_stash);
         let _ = catch(|| self.world.drop_fd(fd));
         let _ = catch(|| self.world.drop_ring());
         self.sync_events();
@@ -1523,7 +1557,8 @@ impl<'a> Exec<'a> {
                     let b = ptr.map(|p| SendBox(unsafe { Box::from_raw(p) }));
                     // (The signal handle, if any, is a descriptor too.)
                     let sig = self.world.take_signals().map(SendBox);
-                    drop_somewhere((b, sig), on_thread)
+                    let stash: Vec<a10::AsyncFd> = ops::OWNED_STASH.with(|s| std::mem::take(&mut *s.borrow_mut()));
+                    drop_somewhere((b, sig, SendBox(stash)), on_thread)
                 }
                 Obj::Op(i) => {
                     if self.ops[i].fut.is_some() {
